@@ -3,16 +3,26 @@ package c07
 
 import (
 	"bytes"
+	"context"
 	"crypto"
+	"crypto/ecdsa"
 	"crypto/rand"
+	"crypto/rsa"
+	"crypto/sha256"
 	"crypto/x509"
 	"encoding/pem"
+	"errors"
 	"fmt"
+	"github.com/sassoftware/relic/v8/token"
+	"github.com/sassoftware/relic/v8/token/tokencache"
+	"io"
 	"os"
 	"path/filepath"
 	"sort"
 	"strings"
+	"sync"
 	"testing"
+	"time"
 
 	"github.com/ProtonMail/go-crypto/openpgp"
 	"pgregory.net/rapid"
@@ -38,6 +48,7 @@ var (
 	root     *keys.CA
 	inter    *keys.CA
 	leafs    = map[string]*x509.Certificate{}
+	selfs    = map[string]*x509.Certificate{} // self-signed certificate per key (typical for APK signing)
 	pgps     = map[string]*openpgp.Entity{}
 )
 
@@ -62,6 +73,7 @@ func TestMain(m *testing.M) {
 	root, inter = env.Root, env.Inter
 	for _, k := range poolKeys {
 		leafs[k] = inter.Issue(keys.Key(k).Public(), keys.LeafOpts{CN: "c07 leaf " + k})
+		selfs[k] = keys.SelfSigned("c07 self-signed "+k, keys.Key(k), nil)
 		if keys.Kind(k) == "rsa" {
 			pgps[k] = keys.PGPEntity(k, "c07 "+k, k+"@c07.example")
 		}
@@ -119,7 +131,7 @@ func TestC07_KeyCertificate(t *testing.T) {
 		default:
 			cd.CertKey = rapid.SampledFrom(poolKeys).Draw(t, "otherkey")
 		}
-		cd.Order = rapid.SampledFrom([]string{"leaf", "leaf,inter", "leaf,inter,root", "inter,leaf", "root,inter,leaf", "leaf,root,inter", "inter,leaf,root"}).Draw(t, "order")
+		cd.Order = rapid.SampledFrom([]string{"leaf", "leaf,inter", "leaf,inter,root", "inter,leaf", "root,inter,leaf", "leaf,root,inter", "inter,leaf,root", "self", "self,inter", "self,inter,root", "inter,self"}).Draw(t, "order")
 		cd.Container = rapid.SampledFrom([]string{"pem", "pem", "der", "pkcs7-pem", "pkcs7-der"}).Draw(t, "container")
 		cd.Source = rapid.SampledFrom([]string{"file", "file", "token-cert", "pkcs12", "token-other-key"}).Draw(t, "source")
 		a := arts.Fixture(format, 0)
@@ -139,6 +151,8 @@ func TestC07_KeyCertificate(t *testing.T) {
 			switch part {
 			case "leaf":
 				chain = append(chain, leafs[cd.CertKey])
+			case "self":
+				chain = append(chain, selfs[cd.CertKey])
 			case "inter":
 				chain = append(chain, inter.Cert)
 			case "root":
@@ -191,12 +205,18 @@ func TestC07_KeyCertificate(t *testing.T) {
 		case "pkcs12":
 			// bundle: private key cd.Key + certificate for cd.CertKey (+ CA certificates)
 			var cas []*x509.Certificate
+			p12leaf := leafs[cd.CertKey]
 			for _, c := range chain {
-				if c != leafs[cd.CertKey] {
+				if c == selfs[cd.CertKey] {
+					p12leaf = c
+				}
+			}
+			for _, c := range chain {
+				if c != p12leaf {
 					cas = append(cas, c)
 				}
 			}
-			p12, err := pkcs12.Modern.WithRand(rand.Reader).Encode(keys.Key(cd.Key), leafs[cd.CertKey], cas, "")
+			p12, err := pkcs12.Modern.WithRand(rand.Reader).Encode(keys.Key(cd.Key), p12leaf, cas, "")
 			if err != nil {
 				t.Skipf("pkcs12 encoder: %v", err)
 			}
@@ -204,7 +224,7 @@ func TestC07_KeyCertificate(t *testing.T) {
 			os.WriteFile(p, p12, 0o600)
 			kc.KeyFile, kc.IsPkcs12 = p, true
 			cd.Container, cd.Order = "pkcs12", "leaf+"+fmt.Sprint(len(cas))+"ca"
-			chain = append([]*x509.Certificate{leafs[cd.CertKey]}, cas...)
+			chain = append([]*x509.Certificate{p12leaf}, cas...)
 		}
 		if isPGP {
 			cd.PGPKey = cd.Key
@@ -223,7 +243,7 @@ func TestC07_KeyCertificate(t *testing.T) {
 		defer env.Install(saved)
 
 		// model: the certificate relic treats as the leaf is the first one
-		firstIsKeys := len(chain) > 0 && chain[0] == leafs[cd.Key]
+		firstIsKeys := len(chain) > 0 && (chain[0] == leafs[cd.Key] || chain[0] == selfs[cd.Key])
 		x509Match := firstIsKeys
 		pgpMatch := !isPGP || cd.PGPKey == cd.Key
 		// (the X.509 certificate of a key is checked at key initialisation for every signature type)
@@ -231,7 +251,7 @@ func TestC07_KeyCertificate(t *testing.T) {
 		// a chain that contains the right leaf but not first may be refused or re-ordered
 		containsRight := false
 		for _, c := range chain {
-			if c == leafs[cd.Key] {
+			if c == leafs[cd.Key] || c == selfs[cd.Key] {
 				containsRight = true
 			}
 		}
@@ -315,6 +335,9 @@ func TestC07_KeyCertificate(t *testing.T) {
 		}
 		// X.509: leaf first and signature verifies under the key's certificate
 		want := leafs[cd.Key]
+		if len(chain) > 0 && chain[0] == selfs[cd.Key] {
+			want = selfs[cd.Key]
+		}
 		switch format {
 		case "pe", "msi", "ps", "jar", "cat":
 			p7, detached, err := extractPKCS7(format, signed)
@@ -337,7 +360,7 @@ func TestC07_KeyCertificate(t *testing.T) {
 			}
 		default:
 			// chain building is not the subject here: the intermediate is trusted directly
-			sigs, err := env.Verify(&pipe.VerifyReq{Path: out, Roots: []*x509.Certificate{root.Cert, inter.Cert}})
+			sigs, err := env.Verify(&pipe.VerifyReq{Path: out, Roots: []*x509.Certificate{root.Cert, inter.Cert, selfs[cd.Key]}})
 			if err != nil {
 				failf("emitted signature does not verify: %v", err)
 			}
@@ -387,4 +410,133 @@ func extractPKCS7(format string, data []byte) (p7, detached []byte, err error) {
 		p7 = tlv.Raw
 	}
 	return p7, detached, nil
+}
+
+// ---------- a rotated key behind the worker's key cache ----------
+
+type rotKey struct {
+	ver  string
+	conf *config.KeyConfig
+}
+
+func (k *rotKey) Public() crypto.PublicKey { return keys.Key(k.ver).Public() }
+func (k *rotKey) Sign(r io.Reader, d []byte, o crypto.SignerOpts) ([]byte, error) {
+	return keys.Key(k.ver).Sign(rand.Reader, d, o)
+}
+func (k *rotKey) SignContext(ctx context.Context, d []byte, o crypto.SignerOpts) ([]byte, error) {
+	return k.Sign(nil, d, o)
+}
+func (k *rotKey) Config() *config.KeyConfig                 { return k.conf }
+func (k *rotKey) Certificate() []byte                       { return leafs[k.ver].Raw }
+func (k *rotKey) GetID() []byte                             { return []byte(k.ver) }
+func (k *rotKey) ImportCertificate(*x509.Certificate) error { return nil }
+
+// rotToken holds one key name whose material is replaced ("rotated") over time; earlier
+// versions stay retrievable by identifier, as on an HSM that keeps old key objects.
+type rotToken struct {
+	mu       sync.Mutex
+	versions []string
+}
+
+func (t *rotToken) Ping(context.Context) error  { return nil }
+func (t *rotToken) Close() error                { return nil }
+func (t *rotToken) Config() *config.TokenConfig { return &config.TokenConfig{} }
+func (t *rotToken) GetKey(ctx context.Context, name string) (token.Key, error) {
+	t.mu.Lock()
+	defer t.mu.Unlock()
+	want := string(token.KeyID(ctx))
+	ver := t.versions[len(t.versions)-1]
+	if want != "" {
+		ver = ""
+		for _, v := range t.versions {
+			if v == want {
+				ver = v
+			}
+		}
+		if ver == "" {
+			return nil, errors.New("no key object with that identifier")
+		}
+	}
+	return &rotKey{ver: ver, conf: &config.KeyConfig{}}, nil
+}
+func (t *rotToken) Import(string, crypto.PrivateKey) (token.Key, error) { return nil, errors.New("x") }
+func (t *rotToken) ImportCertificate(*x509.Certificate, string) error   { return errors.New("x") }
+func (t *rotToken) Generate(string, token.KeyType, uint) (token.Key, error) {
+	return nil, errors.New("x")
+}
+func (t *rotToken) ListKeys(token.ListOptions) error { return errors.New("x") }
+
+// TestC07_RotatedKeyThroughCache: a caller that pins the key identifier it saw together
+// with a certificate must get a signature from that very key, whatever the cache holds
+// after a rotation: the signature value verifies under the certificate it will be
+// embedded with, or the lookup fails.
+func TestC07_RotatedKeyThroughCache(t *testing.T) {
+	pool := []string{"rsa2048a", "rsa2048b", "rsa3072", "p256a", "p256b"}
+	rapid.Check(t, func(t *rapid.T) {
+		expiry := time.Duration(rapid.SampledFrom([]int{0, 15, 1000000}).Draw(t, "expiry_ms")) * time.Millisecond
+		tok := &rotToken{versions: []string{pool[0]}}
+		cache := tokencache.New(tok, expiry)
+		type held struct{ ver string }
+		var handles []held
+		var hist []string
+		n := rapid.IntRange(3, 14).Draw(t, "steps")
+		rotated := false
+		for i := 0; i < n; i++ {
+			op := rapid.SampledFrom([]string{"get", "get", "rotate", "expire", "sign-pinned", "sign-pinned"}).Draw(t, "op")
+			if op == "sign-pinned" && len(handles) == 0 {
+				op = "get"
+			}
+			if op == "rotate" && len(tok.versions) == len(pool) {
+				op = "get"
+			}
+			hist = append(hist, op)
+			switch op {
+			case "rotate":
+				tok.mu.Lock()
+				tok.versions = append(tok.versions, pool[len(tok.versions)])
+				tok.mu.Unlock()
+				rotated = true
+			case "expire":
+				if expiry > 0 && expiry < time.Second {
+					time.Sleep(20 * time.Millisecond)
+				}
+			case "get":
+				k, err := cache.GetKey(context.Background(), "thekey")
+				if err != nil {
+					t.Fatalf("history %v: get failed: %v", hist, err)
+				}
+				handles = append(handles, held{string(k.GetID())})
+			case "sign-pinned":
+				h := handles[rapid.IntRange(0, len(handles)-1).Draw(t, "handle")]
+				k, err := cache.GetKey(token.WithKeyID(context.Background(), []byte(h.ver)), "thekey")
+				if err != nil {
+					t.Fatalf("history %v: key %s still exists in the token but the pinned lookup failed: %v", hist, h.ver, err)
+				}
+				digest := sha256.Sum256([]byte("content"))
+				sig, err := k.SignContext(context.Background(), digest[:], crypto.SHA256)
+				if err != nil {
+					t.Fatalf("history %v: signing failed: %v", hist, err)
+				}
+				// the caller embeds the certificate it got with the identifier it pinned
+				cert := leafs[h.ver]
+				var verr error
+				switch pub := cert.PublicKey.(type) {
+				case *rsa.PublicKey:
+					verr = rsa.VerifyPKCS1v15(pub, crypto.SHA256, digest[:], sig)
+				case *ecdsa.PublicKey:
+					if !ecdsa.VerifyASN1(pub, digest[:], sig) {
+						verr = errors.New("ECDSA verification failed")
+					}
+				}
+				if verr != nil {
+					evid.SaveCase("TestC07_RotatedKeyThroughCache", map[string]any{"history": hist, "pinned": h.ver, "served": string(k.GetID()), "error": verr.Error()})
+					t.Fatalf("history %v: lookup pinned to key %s was served key %s: the signature does not verify under the certificate it is issued with (%v)", hist, h.ver, k.GetID(), verr)
+				}
+			}
+		}
+		rec.Case(fmt.Sprintf("rotate|%v|%v", expiry, hist), fmt.Sprintf("rotated-key/expiry=%v", expiry), rotated)
+		if rotated {
+			rec.Sample("rotated-key", map[string]any{"expiry": expiry.String(), "history": hist})
+		}
+	})
 }
